@@ -103,63 +103,88 @@ def implies_pending(test, polarity):
 # C04 clauses
 # ---------------------------------------------------------------------------
 
-def c04_once(ctx):
+def _register_outcome_rows(ctx):
+    """_register_outcome folded over the case table (current status) x (outcome status) x (ordered?): for each row the
+    statements the walk passes (sa/table.py trace). Independent of local names and of how the guards are arranged."""
+    from ..table import traces, Unknown
+    from ..core import Undecidable
+    import itertools as _it
     f = F(ctx, "BatchCompletionCallBack._register_outcome")
     g = cfg_of(f)
+    out_p = f.args.args[1].arg
+    rows = []
+    for cur, new, ordered in _it.product(("TASK_PENDING", None, "TASK_DONE", "TASK_ERROR"), ("TASK_DONE", "TASK_ERROR"), (True, False)):
+        env = {"TASK_PENDING": "TASK_PENDING", "TASK_DONE": "TASK_DONE", "TASK_ERROR": "TASK_ERROR", "self.status": cur, "%s['status']" % out_p: new,
+               "%s['result']" % out_p: "<result>", "self.parallel.return_ordered": ordered, "parallel.return_ordered": ordered, "self.parallel": "<parallel>", "self": "<self>"}
+        try:
+            walks = traces(g, env, call_args=("self.parallel._jobs.append", "parallel._jobs.append"))
+        except Unknown as e:
+            raise Undecidable("_register_outcome: not understood for status=%s outcome=%s (%s)" % (cur, new, e))
+        for (kind, val, visited, calls) in walks:
+            rows.append((cur, new, ordered, visited, calls))
+    return f, g, rows
+
+
+def _stores(visited, suffix):
+    return [a for a in visited if isinstance(a, ast.Assign) and any(t == suffix or t.endswith("." + suffix) for t in stores_to(a))]
+
+
+def c04_once(ctx):
+    f, g, rows = _register_outcome_rows(ctx)
     stores = assigns_to(f, "self.status")
-    ctx.need(stores, "no store to self.status in _register_outcome")
+    if not stores:
+        ctx.bad(f, "_register_outcome never stores the status", key=PAR + "::BatchCompletionCallBack._register_outcome::status store")
+        return
     for st in stores:
         ctx.check(under_lock(st), st, "status store is inside `with <dispatch lock>`",
                   "status store is outside the dispatch lock: two registrations can interleave")
-        conds = g.conditions_at(g.nodes_of(st))
-        guard = [(ifn, t, pol) for (ifn, t, pol) in conds if implies_pending(t, pol)]
-        ok = bool(guard)
-        same_with = ok and any(
-            under_lock(ifn) and set(map(id, enclosing_withs(ifn))) & set(map(id, enclosing_withs(st)))
-            for (ifn, t, pol) in guard
-        )
-        ctx.check(ok, st, "status store is reached only while the status is still pending (once-guard dominates it)",
-                  "no 'already registered => return' test dominates the status store: an outcome can be overwritten")
-        if ok:
-            ctx.check(same_with, st, "once-guard and status store share one `with <dispatch lock>` block (atomic test-and-set)",
-                      "once-guard and status store are not in the same locked block (test-and-set is not atomic)")
-    # the stored result comes from the outcome, after the guard
+        # atomic test-and-set: the read of the status that decides and the store share one locked block
+        ws = [w for w in enclosing_withs(st) if under_lock(st)]
+        reads = [n for w in ws for n in ast.walk(w) if isinstance(n, ast.Attribute) and isinstance(n.ctx, ast.Load) and dotted(n) == "self.status" and n.lineno <= st.lineno]
+        ctx.check(bool(reads), st, "the status is read and stored in one `with <dispatch lock>` block (atomic test-and-set)",
+                  "the status is not read inside the locked block that stores it (test-and-set is not atomic)")
+    bad = None
+    for cur, new, ordered, visited, calls in rows:
+        s_st, s_res = _stores(visited, "status"), [a for a in visited if isinstance(a, ast.Assign) and "self._result" in stores_to(a)]
+        if cur in ("TASK_DONE", "TASK_ERROR"):
+            if s_st or s_res or calls or _stores(visited, "_exception") or _stores(visited, "_aborting"):
+                bad = ((s_st or s_res or [f])[0], "an outcome already registered (status %s) is overwritten by a second registration (%s)" % (cur, new))
+                break
+        else:
+            if not s_st or not s_res:
+                bad = (f, "a pending batch (status %s) does not get its %s stored" % (cur, "status" if not s_st else "result"))
+                break
+            if visited.index(s_st[0]) > visited.index(s_res[0]):
+                bad = (s_res[0], "the result is stored before the status registration succeeded")
+                break
+    if bad:
+        ctx.bad(bad[0], bad[1], key=PAR + "::BatchCompletionCallBack._register_outcome::outcome registered once")
+    else:
+        ctx.ok(f, "an outcome is registered exactly once: pending => status then result stored; already registered => nothing is touched (%d rows)" % len(rows))
     res = assigns_to(f, "self._result")
     ctx.need(res, "no store to self._result")
     for st in res:
         v = st.value
-        ctx.check(isinstance(v, ast.Subscript) and const_value(v.slice) == "result" and dotted(v.value) == "outcome",
+        ctx.check(isinstance(v, ast.Subscript) and const_value(v.slice) == "result" and dotted(v.value) == f.args.args[1].arg,
                   st, "self._result is outcome['result'] (the object given by the worker/handler, unchanged)")
-        # every path to the result store passes through the status store
-        ctx.check(g.every_path_to(g.nodes_of(st), g.nodes_of_all(stores)), st,
-                  "result store only after a successful status registration")
 
 
 def c04_flags(ctx):
-    f = F(ctx, "BatchCompletionCallBack._register_outcome")
-    g = cfg_of(f)
-    stores = assigns_to(f, "self.status")
-    ctx.need(stores, "no store to self.status")
-    tests = status_error_tests(f)
-    if not tests:
-        ctx.bad(f, "no test of the error status in _register_outcome: abort flags are never raised")
-        return
-    tnodes = g.nodes_of_all(tests)
-    ctx.check(g.every_path_from(g.nodes_of_all(stores), tnodes), stores[0],
-              "every path from the status store to a normal exit passes the error-status test")
-    for t in tests:
-        flags = {}
-        for st in t.body:
-            for n in walk_local(st):
-                if isinstance(n, ast.Assign):
-                    for tg in stores_to(n):
-                        flags[tg.split(".")[-1]] = n
-        for flag in ("_exception", "_aborting"):
-            n = flags.get(flag)
-            ctx.check(n is not None and is_const(n.value, True) and "parallel" in stores_to(n)[0], n or t,
-                      "error status => parallel.%s = True" % flag,
-                      "error status does not set parallel.%s = True (dispatch/retrieval would not stop)" % flag,
-                      key=None if n is not None else "%s::BatchCompletionCallBack._register_outcome::error branch sets %s" % (PAR, flag))
+    f, g, rows = _register_outcome_rows(ctx)
+    bad = None
+    for cur, new, ordered, visited, calls in rows:
+        if cur in ("TASK_PENDING", None) and new == "TASK_ERROR":
+            for flag in ("_exception", "_aborting"):
+                st = [a for a in _stores(visited, flag) if is_const(a.value, True) and "parallel" in stores_to(a)[0]]
+                if not st:
+                    bad = (flag, "a batch that failed (status %s -> TASK_ERROR) does not set parallel.%s = True: dispatch/retrieval would not stop" % (cur, flag))
+                    break
+        if bad:
+            break
+    if bad:
+        ctx.bad(f, bad[1], key="%s::BatchCompletionCallBack._register_outcome::error branch sets %s" % (PAR, bad[0]))
+    else:
+        ctx.ok(f, "error status => parallel._exception = True and parallel._aborting = True (every failing row of the case table)")
     # outcome producers: both retrieval paths turn any BaseException into an error outcome
     for q in ("BatchCompletionCallBack._retrieve_result", "BatchCompletionCallBack.get_result"):
         fn = F(ctx, q)
@@ -1805,12 +1830,15 @@ def c16_unordered(ctx):
         ctx.check(c.args and dotted(c.args[0]) == "self", c, "the tracker appends itself")
         ctx.check(under_lock(c), c, "append happens under the dispatch lock")
         ctx.check(not g.in_cycle(g.nodes_of(c)[0]), c, "appended once")
-        conds = g.conditions_at(g.nodes_of(c))
-        ro = [(t, pol) for (_, t, pol) in conds if "return_ordered" in unparse(t)]
-        ctx.check(len(ro) == 1 and unparse(ro[0][0]) == "self.parallel.return_ordered" and not ro[0][1], c, "append iff not return_ordered",
-                  "append is conditioned on %s" % [(unparse(t), p) for t, p in ro])
-        other = [(unparse(t), pol) for (_, t, pol) in conds if "return_ordered" not in unparse(t) and not implies_pending(t, pol)]
-        ctx.check(not other, c, "on every path past the once-guard (no other condition)", "append additionally conditioned on %s: some completions are never delivered" % other)
+        _f, _g, rows = _register_outcome_rows(ctx)
+        wrong = None
+        for cur, new_, ordered, visited, calls in rows:
+            want = cur in ("TASK_PENDING", None) and not ordered
+            if bool(calls) != want:
+                wrong = "status %s, outcome %s, %s mode: the tracker is %s the queue" % (cur, new_, "ordered" if ordered else "unordered", "appended to" if calls else "NOT appended to")
+                break
+        ctx.check(wrong is None, c, "append iff the outcome was registered now and the mode is unordered (every row of the case table)",
+                  "%s: some completions are never delivered, or delivered twice / in ordered mode" % wrong)
         st = assigns_to(f, "self._result")
         ctx.check(bool(st) and g.every_path_to(g.nodes_of(c), g.nodes_of_all(st)), c, "the result is stored before the tracker becomes visible to the consumer")
     r = F(ctx, "Parallel._retrieve")
